@@ -221,7 +221,11 @@ func scenarios(tier string) ([]Scenario, map[string]int) {
 				for _, m := range methods {
 					for _, m2 := range m2s {
 						for _, pipe := range pipes {
-							for k := 0; k <= len(sc.wire); k++ {
+							last := len(sc.wire)
+							if m == "HEAD" {
+								last = sc.headLen // the answer to HEAD is the head alone
+							}
+							for k := 0; k <= last; k++ {
 								add(Scenario{Kind: "truncate", Script: sc.name, K: k, Reused: reused, Method: m, Proto: pr, M2: m2, Pipe: pipe})
 							}
 						}
@@ -451,6 +455,9 @@ func runScenario(s *Scenario, kind string, quiet time.Duration) *runOut {
 	switch s.Kind {
 	case "truncate":
 		sc, isScript = lookupScript("", s.Script)
+		if s.Method == "HEAD" { // a well-behaved origin answers HEAD with the head alone
+			sc.wire, sc.body = sc.wire[:sc.headLen], nil
+		}
 		faultBytes = sc.wire[:s.K]
 	case "garbage":
 		faultBytes = lookupCorpus(oCorpus, s.Script)[:s.K]
@@ -915,6 +922,9 @@ func runCase(s *Scenario) *h1harness.CaseResult {
 		var tsyms []string
 		for _, f := range t.findings {
 			tsyms = append(tsyms, f.class+":"+f.symptom)
+			if f.class == "harness" || f.symptom == "warmup_failed" {
+				tsyms[len(tsyms)-1] += "(" + f.detail + ")"
+			}
 		}
 		sort.Strings(syms)
 		sort.Strings(tsyms)
